@@ -18,7 +18,7 @@ use std::sync::{Arc, Mutex};
 pub const DEF: PropDef = PropDef {
     id: "C11",
     level: "exploration",
-    rule: "single-thread cases = (vocabulary variant, window parameters, sync policy, static data yes/no, query spelling, in-order streams, interleaving) on engines built with RSPBuilder in SingleThread mode. MAIN family: two-window variants: both blocks over the same predicate (shared vocabulary), disjoint predicates, blocks sharing a join variable, blocks joining on TWO variables over prefix-related literal values (value pairs that differ while their concatenations coincide, events carrying two triples), a static part joining with a block on two variables (its static data also holds triples over the block predicates that answer no static pattern), and window blocks over disjoint predicates while the STATIC pattern and data use the predicate of block 1 (static data can only show up in a block, and window items in the static part, by leaking); (width,slide) of each window from {(2,1),(2,2)}; policies Wait and Steal; static background data present or not, with a static pattern in the WHERE clause (the static-shares-vocabulary variant only with: without static data it is the disjoint variant); streams of <=3 items each over a 2-event alphabet per stream with gaps {1} (thorough {1,2}); EVERY interleaving of the streams. After the last item the pending window results are drained through the public process_single_thread_window_results() and the rows it emits are judged like all others (otherwise the last firing is never observed). CONFIG family (streams of <=2 items each, every interleaving, static yes/no, window pairs (2,1)x(2,1) and (2,2)x(2,1), variants shared / disjoint / two-join-variables / static-shares-vocabulary; thorough: all four pairs and the full product of the dimensions, incl. ISTREAM/DSTREAM, under Wait and Steal, the timeout policies wherever the policy is in the text): the same queries under other spellings/configurations: prefix-related stream and window names (:s/:s1/:s12, :w/:w1/:w12) and <http://e/s>-style stream IRIs (always fed under exactly the spelling used in the query), WINDOW blocks written in reverse order with the static pattern first, the policy given as WITH POLICY in the query text (on the last FROM NAMED WINDOW clause) instead of set_sync_policy (all four policies), policies Timeout+Steal and Timeout+Drop through the builder (single-thread: no timer), and prefix-related names + reversed blocks + policy in the text + ISTREAM together. OPS family: ISTREAM and DSTREAM instead of RSTREAM on the static-shares-vocabulary variant with static data, policies Wait and Steal, streams of <=3 items with gap 2 (items at t=2,4,6, so that consecutive reported contents differ and DSTREAM really emits), every interleaving. THREE-WINDOW family: three windows over three streams with disjoint predicates whose blocks join in a chain (?a p ?j . / ?j q ?k . / ?k s ?f .), streams of <=2 items each (alphabets of 2,2,1 events), every interleaving of the three streams, window triples (2,1)^3 and (2,2)(2,1)(2,1) (thorough: all eight), policies Wait and Steal, static yes/no. SPARSE family (thorough only): gaps {1,3} (items at t,t+1,t+4: the window reports an EMPTY content after a non-empty one), one event per stream, streams of <=3 items each, disjoint-vocabulary and static-shares-vocabulary variants, static present, all four window pairs. Oracle, per emitted row and per window i (all three stream operators: an ISTREAM/DSTREAM row is a row of the current/previous join): the row must bind every variable of block i; window i's probe must have reported at least once (symptom row_emitted_before_own_window_reported otherwise - no content of that window exists yet; a feed in which one stream is silent must therefore emit nothing); the row restricted to block i's variables must be an answer of block i over SOME content that a probe window with window i's parameters, fed only stream i, has reported so far; the restriction to the static variables must be an answer over the static data alone. A failing block part is tagged explained_by=other_windows_content_visible when it becomes an answer once the contents reported by the OTHER windows are added to window i's content - the shared-store defect -, explained_by=static_data_visible when it becomes an answer once the static data (and not the other windows' items) are added, explained_by=other_windows_content_and_static_data_visible when it needs both, and explained_by=nothing otherwise. Multi-thread family (hook H1 baton scheduler with one worker per window and the coordinator thread, channels named per window plus the results channel, deadline expiry of the coordinator's timed receive enumerated as a scheduling choice): MAIN sub-family: disjoint- and shared-vocabulary (thorough: also two-join-variable) variants x policies {Wait, Steal, Timeout+Steal, Timeout+Drop} x every interleaving of two streams of <=2 items each (quick: <=3 items in total - no engine whose blocks are over disjoint predicates can emit a row there, because both windows must have reported a non-empty content) under EVERY schedule with <=1 (thorough 2) preemptions; a ROWS sub-family in which both streams carry two items at t=1,2 (every interleaving), so that both windows report a non-empty content and engines over disjoint predicates really emit joined rows in MultiThread mode: two-join-variable variant (stream 2 in both event orders: the genuinely joining pair and the pair whose concatenated values collide), and static-join-on-two-variables WITH static data and the policy given as WITH POLICY in the query text, all four policies, <=1 preemption in both tiers (thorough adds the window pair (2,2)x(2,1)); a THREE-WINDOW sub-family (three workers + coordinator, chain-join variant, one event per stream, two items per stream; quick: the six block orders of the streams under every NON-PREEMPTIVE schedule, thorough: every interleaving non-preemptively and the block orders with <=1 preemption); every emitted row must bind the variables of all blocks, each block part must be an answer over a content its own window reports over the whole feed, the static part an answer over the static data. Non-trivial = single-thread case in which every window reported a non-empty content AND rows were emitted, multi-thread case that emits rows; distinct by case.",
+    rule: "single-thread cases = (vocabulary variant, window parameters, sync policy, static data yes/no, query spelling, in-order streams, interleaving) on engines built with RSPBuilder in SingleThread mode. MAIN family: two-window variants: both blocks over the same predicate (shared vocabulary), disjoint predicates, blocks sharing a join variable, blocks joining on TWO variables over prefix-related literal values (value pairs that differ while their concatenations coincide, events carrying two triples), a static part joining with a block on two variables (its static data also holds triples over the block predicates that answer no static pattern), and window blocks over disjoint predicates while the STATIC pattern and data use the predicate of block 1 (static data can only show up in a block, and window items in the static part, by leaking); (width,slide) of each window from {(2,1),(2,2)}; policies Wait and Steal; static background data present or not, with a static pattern in the WHERE clause (the static-shares-vocabulary variant only with: without static data it is the disjoint variant); streams of <=3 items each over a 2-event alphabet per stream with gaps {1} (thorough {1,2}); EVERY interleaving of the streams. After the last item the pending window results are drained through the public process_single_thread_window_results() and the rows it emits are judged like all others (otherwise the last firing is never observed). CONFIG family (streams of <=2 items each, every interleaving, static yes/no, window pairs (2,1)x(2,1) and (2,2)x(2,1), variants shared / disjoint / two-join-variables / static-shares-vocabulary; thorough: all four pairs and the full product of the dimensions, incl. ISTREAM/DSTREAM, under Wait and Steal, the timeout policies wherever the policy is in the text): the same queries under other spellings/configurations: prefix-related stream and window names (:s/:s1/:s12, :w/:w1/:w12) and <http://e/s>-style stream IRIs (always fed under exactly the spelling used in the query), WINDOW blocks written in reverse order with the static pattern first, the policy given as WITH POLICY in the query text (on the last FROM NAMED WINDOW clause) instead of set_sync_policy (all four policies), policies Timeout+Steal and Timeout+Drop through the builder (single-thread: no timer), and prefix-related names + reversed blocks + policy in the text + ISTREAM together. OPS family: ISTREAM and DSTREAM instead of RSTREAM on the static-shares-vocabulary variant with static data, policies Wait and Steal, streams of <=3 items with gap 2 (items at t=2,4,6, so that consecutive reported contents differ and DSTREAM really emits), every interleaving. THREE-WINDOW family: three windows over three streams with disjoint predicates whose blocks join in a chain (?a p ?j . / ?j q ?k . / ?k s ?f .), streams of <=2 items each (alphabets of 2,2,1 events), every interleaving of the three streams, window triples (2,1)^3 and (2,2)(2,1)(2,1) (thorough: all eight), policies Wait and Steal, static yes/no. SPARSE family (thorough only): gaps {1,3} (items at t,t+1,t+4: the window reports an EMPTY content after a non-empty one), one event per stream, streams of <=3 items each, disjoint-vocabulary and static-shares-vocabulary variants, static present, all four window pairs. Oracle, per emitted row and per window i (all three stream operators: an ISTREAM/DSTREAM row is a row of the current/previous join): the row must bind every variable of block i; window i's probe must have reported at least once (symptom row_emitted_before_own_window_reported otherwise - no content of that window exists yet; a feed in which one stream is silent must therefore emit nothing); the row restricted to block i's variables must be an answer of block i over SOME content that a probe window with window i's parameters, fed only stream i, has reported so far; the restriction to the static variables must be an answer over the static data alone. A failing block part is tagged explained_by=other_windows_content_visible when it becomes an answer once the contents reported by the OTHER windows are added to window i's content - the shared-store defect -, explained_by=static_data_visible when it becomes an answer once the static data (and not the other windows' items) are added, explained_by=other_windows_content_and_static_data_visible when it needs both, and explained_by=nothing otherwise. Multi-thread family (hook H1 baton scheduler with one worker per window and the coordinator thread, channels named per window plus the results channel, deadline expiry of the coordinator's timed receive enumerated as a scheduling choice): MAIN sub-family: disjoint- and shared-vocabulary (thorough: also two-join-variable) variants x policies {Wait, Steal, Timeout+Steal, Timeout+Drop} x every interleaving of two streams of <=2 items each (quick: <=3 items in total - no engine whose blocks are over disjoint predicates can emit a row there, because both windows must have reported a non-empty content) under EVERY schedule with <=1 (thorough 2) preemptions; a ROWS sub-family in which both streams carry two items at t=1,2 (every interleaving), so that both windows report a non-empty content and engines over disjoint predicates really emit joined rows in MultiThread mode: two-join-variable variant (stream 2 in both event orders: the genuinely joining pair and the pair whose concatenated values collide), and static-join-on-two-variables WITH static data and the policy given as WITH POLICY in the query text, all four policies, <=1 preemption in both tiers (thorough adds the window pair (2,2)x(2,1)); a REFIRE sub-family (two-join-variable variant, stream 1 with two items and stream 2 with three, every interleaving, so that window 2 reports twice and results of both windows can be pending together while the coordinator holds an older result; quick: policies Steal and Timeout+Steal, thorough: all four and the mirrored feed; <=1 preemption); a THREE-WINDOW sub-family (three workers + coordinator, chain-join variant, one event per stream, two items per stream; quick: the six block orders of the streams under every NON-PREEMPTIVE schedule, thorough: every interleaving non-preemptively and the block orders with <=1 preemption); every emitted row must bind the variables of all blocks, each block part must be an answer over a content its own window reports over the whole feed, the static part an answer over the static data. Non-trivial = single-thread case in which every window reported a non-empty content AND rows were emitted, multi-thread case that emits rows; distinct by case.",
     assumptions: &[
         "stop()'s flush is excluded (engines are dropped); multi-thread scheduling points: channel sends/receives, thread start/end, after each window processor, the coordinator's timed receive (deadline expiry is a choice), no points inside mutexes",
         "the probe windows are real CSPARQLWindows (C09's subject)",
@@ -841,6 +841,31 @@ fn mt_small(ctx: &Ctx, out: &mut ShardOut, idx: &mut u64) -> bool {
                         if !mt_step(ctx, out, idx, mc, bound, "rows") {
                             return false;
                         }
+                    }
+                }
+            }
+        }
+    }
+    // REFIRE sub-family: stream 1 carries two items, stream 2 three (t = 1,2,3), so window 2 reports TWICE
+    // and a result of each window can be pending on the results channel at the same time while the
+    // coordinator already holds an older result of window 2 (policies whose coordinator path drains or
+    // replaces pending results: Steal and Timeout+Steal; thorough: all four and the mirrored 3+2 feed).
+    {
+        let s1: Vec<(usize, usize)> = vec![(1, 1), (0, 2)];
+        let s2: Vec<(usize, usize)> = vec![(0, 1), (1, 2), (0, 3)];
+        let s1l: Vec<(usize, usize)> = vec![(1, 1), (0, 2), (1, 3)];
+        let s2s: Vec<(usize, usize)> = vec![(0, 1), (1, 2)];
+        for (a, b, mirrored) in [(&s1, &s2, false), (&s1l, &s2s, true)] {
+            for policy in POLICIES {
+                for feed in interleavings(&[a, b]) {
+                    let quick_ok = !mirrored && matches!(policy, Policy::Steal | Policy::TimeoutSteal);
+                    if !ctx.thorough() && !quick_ok {
+                        *idx += 1;
+                        continue;
+                    }
+                    let mc = MtCase { variant: V_TWO_JOIN, wins: vec![(2, 1), (2, 1)], policy, with_static: false, policy_in_text: false, feed };
+                    if !mt_step(ctx, out, idx, mc, bound, "refire") {
+                        return false;
                     }
                 }
             }
